@@ -81,3 +81,44 @@ Theorem C13_compose_general : forall rm rn rr hcode D has_ns n c q,
   select rm rn rr hcode D has_ns (subst_base q (addr_query n)) c = select rm rn rr hcode D has_ns q n.
 Proof. exact select_compose. Qed.
 Print Assumptions C13_compose_general.
+
+(* ------------------------------------------------------------------ *)
+(* END TO END, from the TEXT: an absolute predicate-free path compiles to a query whose Select
+   and Evaluate do not depend on the start node (any document, any identity code, any two start
+   nodes) and select exactly the path's denotation from the root; a relative concatenation P/Q
+   selects exactly the nodes Q selects from the nodes P selects. *)
+From XP Require Import Scan Parse Build.
+From XP.Spec Require Import Axes.
+From XP.Proofs Require Import DocOrder RoundTripPaths EndToEndPaths EndToEndPos EndToEndAbs.
+
+Theorem C13_end_to_end_absolute : forall re_ok ns p steps,
+  path_syntax p -> steps_of p = (true, steps) -> xok p ->
+  List.length steps < max_build_depth ->
+  exists q, compile re_ok (print_min p) ns = Ok q /\ ctx_free q /\
+    (forall rm rn rr hc D has_ns c1 c2,
+       select rm rn rr hc D has_ns q c1 = select rm rn rr hc D has_ns q c2 /\
+       evaluate rm rn rr hc D has_ns q c1 = evaluate rm rn rr hc D has_ns q c2) /\
+    (forall rm rn rr hc D has_ns c, hash_ok (hc D) (all_nodes D) ->
+       exists l, select rm rn rr hc D has_ns q c = Val l /\
+                 forall n, In n l <-> path_den D has_ns steps root_node n).
+Proof. exact C13_absolute_end_to_end. Qed.
+Print Assumptions C13_end_to_end_absolute.
+
+Theorem C13_end_to_end_compose : forall D has_ns hc rm rn rr re_ok ns p1 p2 abs s1 s2,
+  path_syntax p1 -> steps_of p1 = (abs, s1) ->
+  path_syntax p2 -> steps_of p2 = (false, s2) ->
+  xok p1 -> xok p2 -> xok (path_cat p1 p2) ->
+  List.length (s1 ++ s2) < max_build_depth -> hash_ok (hc D) (all_nodes D) ->
+  exists q q1 q2,
+    compile re_ok (print_min (path_cat p1 p2)) ns = Ok q /\
+    compile re_ok (print_min p1) ns = Ok q1 /\
+    compile re_ok (print_min p2) ns = Ok q2 /\
+    forall c, valid D c = true ->
+    exists l l1,
+      select rm rn rr hc D has_ns q c = Val l /\
+      select rm rn rr hc D has_ns q1 c = Val l1 /\
+      (forall n, In n l <->
+         exists m l2, In m l1 /\ select rm rn rr hc D has_ns q2 m = Val l2 /\ In n l2) /\
+      (Forall flat_step (s1 ++ s2) -> sorted_doc l /\ sorted_doc l1).
+Proof. exact C13_compose_end_to_end. Qed.
+Print Assumptions C13_end_to_end_compose.
